@@ -133,7 +133,10 @@ impl<R: Read + Seek> ReadBox<&mut R> for TrunBox {
             sample_cts.reserve(sample_count as usize);
         }
 
-        for _ in 0..sample_count {
+        // Without any per-sample field there is nothing to read, however many samples
+        // the run declares.
+        let entries = if sample_size > 0 { sample_count } else { 0 };
+        for _ in 0..entries {
             if TrunBox::FLAG_SAMPLE_DURATION & flags > 0 {
                 let duration = reader.read_u32::<BigEndian>()?;
                 sample_durations.push(duration);
